@@ -578,6 +578,25 @@ def D39(tmp):
     return r != 100, f"aligned payload containing .pad/1: recheck of intact content reports {r}"
 
 
+def D40(tmp):
+    """assemble() called again on a hybrid / v2 creator object must give the same metafile as the first call"""
+    import importlib
+    torrent = importlib.import_module("torrentfile.torrent")
+    d = os.path.join(tmp, "p")
+    _mk(d, {"a": 40000, "b": 20000})
+    bad = []
+    for cls, kw in (("TorrentFileHybrid", {}), ("TorrentAssembler", {"meta_version": "3"}), ("TorrentFileV2", {})):
+        t = _quiet(lambda: getattr(torrent, cls)(path=d, piece_length=PL, progress=0, **kw))
+        o1, _ = _quiet(lambda: t.write(os.path.join(tmp, "1.torrent")))
+        b1 = open(o1, "rb").read()
+        _quiet(t.assemble)
+        o2, _ = _quiet(lambda: t.write(os.path.join(tmp, "2.torrent")))
+        b2 = open(o2, "rb").read()
+        if len(b1) != len(b2):
+            bad.append(f"{cls}: {len(b1)} then {len(b2)} bytes")
+    return bool(bad), "second assemble() on the same creator object: " + ("; ".join(bad) or "identical metafiles")
+
+
 # D27/D28: known findings of rebuild
 def D27(tmp):
     def scatter(d, src):
